@@ -266,8 +266,15 @@ def run(ctx: Ctx) -> None:
         except OverflowError:       # 31 Dec 9999 + a day of a leap year: no such datetime
             continue
         dst, incl = rng.random() < 0.5, rng.random() < 0.5
+        arg = t if rng.random() < 0.5 else t.isoformat()
+        try:
+            word = int(H.hex_from_dtm(arg, is_dst=dst, incl_seconds=incl), 16)
+        except Exception as err:  # noqa: BLE001
+            ctx.violation(f"dtm-encoder-raises:{type(err).__name__}", f"hex_from_dtm({arg!r}, is_dst={dst}, incl_seconds={incl}) raised {type(err).__name__}: {err}",
+                          {"value": t.isoformat(), "is_dst": dst, "incl_seconds": incl}, "input")
+            continue
         enc_dtm.append((t, dst, incl))
-        enc_dtm_exp.append(int(H.hex_from_dtm(t if rng.random() < 0.5 else t.isoformat(), is_dst=dst, incl_seconds=incl), 16))
+        enc_dtm_exp.append(word)
 
     def coq_dtf(t):
         return f"(Some (mk_dtf {t.year} {t.month} {t.day} {t.hour} {t.minute} {t.second}))"
